@@ -71,7 +71,7 @@ func parseDesc(desc string) (d docSpec, c pageCfg, ok bool) {
 				}
 				fmt.Sscan(p[0], &s)
 				m := menuIndex(p[1])
-				if m < 0 || s >= 3 {
+				if m < 0 || s >= maxSlots {
 					return d, c, false
 				}
 				d.Devs = append(d.Devs, dev{s, m})
